@@ -17,7 +17,7 @@ for res in sorted(glob.glob("/tmp/seedres/C*_*.json")):
     print("NOT confirmed:", name, {k: r.get(k) for k in ("demo_pristine_exit", "demo_patched_exit", "baseline_ok", "apply_ok")}); continue
   dst = os.path.join(root, name)
   os.makedirs(dst, exist_ok=True)
-  for f in ("patch.diff", "demo.py", "notes.md"):
+  for f in ("patch.diff", "patch_rebased.diff", "demo.py", "notes.md"):
     if os.path.exists(os.path.join(src, f)):
       shutil.copy(os.path.join(src, f), os.path.join(dst, f))
   notes = open(os.path.join(dst, "notes.md")).read() if os.path.exists(os.path.join(dst, "notes.md")) else ""
@@ -26,6 +26,8 @@ for res in sorted(glob.glob("/tmp/seedres/C*_*.json")):
   old = json.load(open(meta_path)) if os.path.exists(meta_path) else {}
   meta = {
       "property": r["property"],
+      "repo_commit_checked_against": r.get("base_commit", "d83af77"),
+      "patch_file_used": r.get("patch_file", "patch.diff"),
       "origin": "independent sub-agent given only the property text and a scratch worktree",
       "needs_to_manifest": old.get("needs_to_manifest") or notes.strip().replace("\n", " ")[:900],
       "confirmed": {"demo_exit_pristine": r["demo_pristine_exit"], "demo_exit_patched": r["demo_patched_exit"],
@@ -44,7 +46,7 @@ for d in sorted(glob.glob(os.path.join(root, "C*_*"))):
   c = m["check_result"]
   first = open(os.path.join(d, "notes.md")).read().strip().split("\n") if os.path.exists(os.path.join(d, "notes.md")) else [""]
   title = next((l.strip("# ").strip() for l in first if l.strip()), "")
-  status = "caught" if c["caught"] else ("caught after strengthening" if m.get("caught_after_strengthening") else "MISSED")
+  status = ("caught (after strengthening the check)" if m.get("caught_after_strengthening") else "caught") if c["caught"] else "MISSED"
   rows.append("| %s | %s | %s | %s | %s |" % (os.path.basename(d), m["property"], title[:110].replace("|", "/"), status,
                                              "; ".join(s.replace("signature: ", "") for s in c["signatures"][:2])[:160].replace("|", "/")))
 open(os.path.join(root, "INDEX.md"), "w").write(
